@@ -15,7 +15,8 @@ RULE = (
     "Hypothesis draws store contents (0-3 staged trees over a small shared content pool + loose "
     "files, transferred into a LocalHashFileDB or HashFileDB), a used set (present ids by index, "
     "absent ids, ids carried by a foreign algorithm name, optionally the id of a staged directory without "
-    "files whose object is the empty listing), mode shallow/expanding (optionally "
+    "files whose object is the empty listing; directory objects stored in canonical form, re-serialised with other "
+    "whitespace, or in the library's with-metadata form, optionally left writable), mode shallow/expanding (optionally "
     "with a separate cache_odb that holds the directory objects), dry/real, read_only, and in 1 of "
     "15 cases 999-2300 further unused objects (paged listing/removal). Oracle: "
     "set difference computed from a direct os.walk of the store and the raw .dir bytes. "
@@ -78,6 +79,14 @@ def cases(draw):
         # a further staged directory WITHOUT files (its directory object is the empty listing `[]`):
         # None / "used" (its id is in the used set) / "unused"
         "empty_dir": draw(st.sampled_from([None, None, None, "used", "used", "unused"])),
+        # stored form of the directory objects: canonical (None) / the same listing re-serialised with other
+        # whitespace ("respaced", e.g. written by another tool) / the library's own with-metadata form
+        # (Tree.digest(with_meta=True) + add_update_tree stores it under the metadata-free id; readable by gc's
+        # Tree.load only where the store's algorithm names the entries' digest field, i.e. legacy stores).
+        # Such an object does not hash to its name; "unprotect" leaves it writable in a local store (a restored
+        # / copied store without permission bits) - gc must still treat a used one as used, dry or not
+        "dir_form": draw(st.sampled_from([None, None, None, "respaced", "with-meta"])),
+        "dir_unprotect": draw(st.booleans()),
     }
 
 
@@ -224,7 +233,35 @@ def run_case(case, ctx):
                     os.makedirs(p_ + ".unpacked", exist_ok=True)
                     gen.write_file(os.path.join(p_ + ".unpacked", "legacy-file"), b"old unpacked data")
                     n_unpacked += 1
+        reformed = set()
+        form = case.get("dir_form")
+        if form == "with-meta" and algo != "md5-dos2unix":
+            form = "respaced"
+        if form:
+            import json as _json
+
+            roots = [store] + ([cache.path] if cache is not None else [])
+            for root_ in roots:
+                for oid_, pth_ in ref.walk_store(root_)[0].items():
+                    if not oid_.endswith(".dir"):
+                        continue
+                    lst_ = ref.parse_listing(ref.read(pth_))
+                    if not lst_:
+                        continue
+                    if form == "with-meta":
+                        lst_ = [dict(e, size=7 + i) for i, e in enumerate(lst_)]
+                        text = _json.dumps(sorted(lst_, key=lambda e: e["relpath"]), sort_keys=True)
+                    else:
+                        text = _json.dumps(lst_, indent=1)
+                    os.chmod(pth_, 0o644)
+                    with open(pth_, "w", encoding="utf-8") as f_:
+                        f_.write(text)
+                    if not (case.get("dir_unprotect") and root_ == store):
+                        os.chmod(pth_, 0o444)
+                    reformed.add(oid_)
+            odb._dirs = odb2._dirs = None
         problems, before = ref.audit_local_store(store, algo)
+        problems = [p_ for p_ in problems if not (p_[0] == "mismatch" and p_[1] in reformed)]
         if problems:
             return Result([Viol("setup-audit", f"store not well-formed after setup: {problems[:2]}")])
         cache_contents = before
@@ -347,6 +384,10 @@ def run_case(case, ctx):
             classes.append("bulk>=999-unused-objects")
         if case.get("dense"):
             classes.append(f"one-shard-holds->=1953-objects:{case['dense'][1]}")
+        if reformed:
+            classes.append(f"dir-objects-stored:{form}")
+            if case.get("dir_unprotect") and case["kind"] == "local":
+                classes.append("dir-objects-stored-unprotected")
         if case.get("path_form", "plain") != "plain":
             classes.append(f"store-path-spelled:{case['path_form']}")
         if case.get("two_handles") and case["trees"]:
